@@ -111,6 +111,7 @@ type Node struct {
 	Tag  string // extra serix tag parts when used as a struct field
 	// field modifiers
 	Optional, Embedded, Inlined bool
+	OmitEmpty                   bool // JSON form only: the key is left out when the value is empty
 	Vals                        func() []reflect.Value
 	Ref                         func(v reflect.Value, validate bool) ([]byte, error)
 	Canon                       func(v reflect.Value) string
@@ -677,6 +678,14 @@ func Opt(n *Node) *Node {
 	return &c
 }
 
+// Omit marks a node as an omitempty struct field (only the JSON/map form is affected).
+func Omit(n *Node) *Node {
+	c := *n
+	c.OmitEmpty = true
+	c.Name = "omitempty(" + n.Name + ")"
+	return &c
+}
+
 // PtrTo builds a pointer-to-struct node.
 func PtrTo(n *Node) *Node {
 	t := reflect.PointerTo(n.Type)
@@ -738,6 +747,9 @@ func Struct(fields ...*Node) *Node {
 		}
 		if f.Inlined {
 			tag += ",inlined"
+		}
+		if f.OmitEmpty {
+			tag += ",omitempty"
 		}
 		sf[i] = reflect.StructField{Name: name, Type: f.Type, Tag: reflect.StructTag(fmt.Sprintf(`serix:"%s"`, tag))}
 		if f.Embedded {
@@ -852,6 +864,7 @@ func FieldKinds() []*Node {
 		ArrayOf(u16, 2, 1),
 		MapOf(u8, u16, 1, 0, 0), MapOf(s8, b8, 2, 0, 0), MapOf(u16, s8, 4, 1, 2),
 		inner, PtrTo(inner), Opt(PtrTo(inner)), Opt(IfaceNode(false)), Opt(IfaceNode(true)), EmbeddedNode(false), EmbeddedNode(true),
+		Omit(PtrTo(inner)), Omit(byName(leaves, "bigint")), Omit(u16), Omit(Opt(PtrTo(inner))), Omit(s8),
 	)
 	return out
 }
